@@ -115,8 +115,6 @@ func registeredUndoManagers(w *core.World) map[*types.Named]bool {
 }
 
 var c01Idioms = []idiom{
-	{Fn: "pkg/datasource/sql/undo/executor.(BaseExecutor).dataValidationAndGoOn", Callee: "github.com/goccy/go-json.Marshal", Kind: "dropped",
-		Reason: "result only feeds the log line printed just before the dirty-data error is returned"},
 	{Fn: "", Callee: "database/sql/driver.(Valuer).Value", Kind: "dropped",
 		Reason: "the scan slices of the undo executors hold database/sql Null* values whose Value() cannot fail (wherever the unwrapping is done)"},
 	{Fn: "pkg/datasource/sql/undo/base.(BaseUndoLogManager).HasUndoLogTable", Callee: "database/sql.(Conn).QueryContext", Kind: "swallowed",
